@@ -6,6 +6,12 @@ V = os.path.dirname(os.path.dirname(os.path.abspath(__file__)))
 TECH = "deterministic simulation with fault injection: real writer code run against a simulated kernel / target / clock / destination behind interposed libc symbols; seeded scenario search, oracle on each run, minimised replay file"
 
 CLAIMED = {
+ "C04": ("exploration", "3 C04", "Seeded search over thread sets (1..64 threads, field-unique register values, sandbox and foreign-traced threads), thread exits placed by trigger at every phase (before/during enumeration, at the name read, between attaches, between attach and wait), stop behaviour (fail point, late, staggered) and busy threads stepped 1..7 micro-steps per writer call. Oracle: completeness, no duplicates, every context field equals the simulated kernel's register state while stopped, and the kernel-side single-instant invariant (no listed thread executed between its register read and the last remote memory read) plus the three-counter content check.", "ptrace / group-stop / signal model of the simulated kernel."),
+ "C05": ("exploration", "3 C05", "Crash contexts with field-unique general, flag, segment and x87/SSE values and siginfo; blamed thread = main / other / exiting before attach / never existing / present but not attachable (foreign tracer, sandbox thread); with and without crash context. Decoder compares exception record and both contexts field by field.", "Strict decoder; dumps that fail as a whole (blamed thread without /proc entry) give no image to judge."),
+ "C06": ("exploration", "3 C06", "Exhaustive sweep of all 512 word-aligned in-page stack-pointer offsets under three size-limit classes (indices 0..1535), then random: unaligned SPs, SP in the guard page / 2..255 pages below / beyond the guard distance, stack sizes 1..64 pages, 1..64 threads (list positions >= 20), crash-context thread at a late position. Oracle = stack-region model from the statement; bytes from SP upward compared with simulated memory.", "Byte equality asserted with sanitize off; exact-limit guard distance (256/257 pages) not generated."),
+ "C07": ("exploration", "3 C07", "0..8 application regions (length 1 B..1 MiB, any alignment, ending at / one byte before a mapping end next to a hole), crash IP at mapping start, +127, +128, end-128, end-1, unmapped, inside; every descriptor's bytes compared with simulated memory as of the capture window; presence of app regions, stacks and the clipped IP window.", "Region presence is demanded for regions wholly readable by process_vm_readv."),
+ "C15": ("exploration", "3 C15", "All 2^n unreadable-name patterns for n <= 6 threads (126 patterns, indices 0..125) then random up to 32 threads; unreadable = ENOENT / EACCES / EIO on read / invalid UTF-8; names of length 0..15 with non-ASCII and leading/trailing whitespace; short reads. Expected names come from the bytes the simulated kernel actually served.", "Strict decoder."),
+ "C20": ("exploration", "3 C20", "1..24 threads, each with its IP inside / at the end address of / outside the principal mapping and a pointer planted at SP, at the last word, below SP only, unaligned only, equal to the start / end address, or nowhere; unaligned SPs; principal address in a module, unmapped, unset; with and without crash context. Oracle = filter model from the statement (half-open mapping range).", "Size limit and sanitize are off in this profile."),
  "C09": ("fault_enumeration", "3 C09", "Two workloads. (a) whole dumps under a destination plan (start offset, pre-existing content, short writes, EINTR, hard errors, panics at a chosen destination call) compared with the logical write history of the fault-free twin run: after success destination == pre-existing bytes overlaid with the returned image, after an abort destination == a prefix of that write history; (b) seeded operation sequences on the directory-section writer against a 30-line reference model. Faults are placed at sampled destination calls, not all of them in every run.", "Determinism of the simulation (twin runs); reference model of the directory writer in /verif/sim/src/workloads.rs accepts either order of (entry write, append) within one flush."),
  "C10": ("fault_enumeration", "3 C10", "For each generated scenario every boundary between two consecutive destination calls of the recorded run is a crash point (exhaustive within the run), and a hard error is injected at destination calls in turn (every third call in quick, every call in thorough); the surviving bytes are decoded in prefix mode: header + full directory present, every non-zero entry and everything it references already present.", "Strict decoder; one write_all == one destination call (no short writes in this profile)."),
  "C19": ("exploration", "3 C19", "Histories of 2..5 requests on one writer (world evolving between requests, some requests failing); before each request the simulated world is cloned and a freshly configured writer dumps the clone: images, destinations and kernel call sequences must be identical.", "Forkable deterministic world (Kernel: Clone); equality is byte-exact including the timestamp because the simulated clock is cloned too."),
